@@ -65,6 +65,9 @@ def engine(pid, what, ref):
 
 
 engine("C01", "Worker limit and distinct worker slots per step.", "5/C01")
+engine("C03", "Queued work runs at full capacity; idle announced only when nothing can happen without external input.", "5/C03")
+engine("C09", "collect_events lists: as expected, each event in at most one list, no full set lost.", "5/C09")
+engine("C10", "wait_for_event: at most one completion/timeout per wait, right type and requirements, waiter_event once.", "5/C10")
 engine("C04", "One outcome, one matching terminal event, stream consumer terminates.", "5/C04")
 engine("C11", "Tick-log replay (real rebuild_state_from_ticks at every on_tick) equals the live runner state.", "5/C11")
 engine("C35", "StepStateChanged telemetry alternates per worker slot, PREPARING only at capacity, InputRequired published once.", "5/C35")
